@@ -225,10 +225,15 @@ fn ref_expand(t: &str, env: &Env) -> Result<Vec<String>, ()> {
     Ok(outs)
 }
 
-const TVARS: &[&str] = &["HOME", "RV_A", "RV_B", "RV_UNSET"];
+// (the last two are never set: a name is looked up as it is spelled)
+const TVARS: &[&str] = &["HOME", "RV_A", "RV_B", "RV_UNSET", "home", "rv_a"];
 
 fn c17_env(rng: &mut Rng) -> Env {
     let mut env = Env::new();
+    // a bystander whose value is not UTF-8: no template names it, none may be affected by it
+    if rng.chance(1, 5) {
+        env.insert("RV_BIN".into(), "<non-utf8>".into());
+    }
     for k in ["HOME", "RV_A", "RV_B"] {
         // (HOME never holds a '$': whether the home directory's own text is expanded again is
         // not something the statement decides)
@@ -463,7 +468,7 @@ const XDG: &[&str] = &[
 fn c18_env(rng: &mut Rng) -> Env {
     let mut env = Env::new();
     // (two spellings that are not clean: a candidate directory is a path like any other)
-    let dirs = ["/cfg/a", "/cfg/b", "/cfg/c", "/etc/xdg", "/h/.config", "/opt/x", "/cfg/x/../a", "/cfg//c/"];
+    let dirs = ["/cfg/a", "/cfg/b", "/cfg/c", "/etc/xdg", "/h/.config", "/opt/x", "/cfg/x/../a", "/cfg//c/", "/cfg/m\u{fc}ller", "/\u{65e5}\u{672c}/cfg"];
     for k in XDG {
         let v: Option<String> = if k.starts_with("SUDO") {
             match rng.weighted(&[3, 1, 4, 2]) {
